@@ -113,6 +113,16 @@ func newSeekableDecryptingReader(r io.ReadSeeker, base int64, mainKey []byte, aa
 	if plaintextLen < 0 {
 		return nil, errors.New("ciphertext too short for segment count")
 	}
+	// The writer never ends a stream with a slot that holds less than a tag, and it only emits a
+	// tag-only segment for an empty plaintext. Any other trailing slot means the ciphertext was cut
+	// or extended, which would otherwise go unnoticed because that slot contributes no plaintext.
+	lastSegmentLen := ciphertextLen - (numSegments-1)*css
+	if numSegments == 1 {
+		lastSegmentLen = ciphertextLen - int64(tinkHeaderLen)
+	}
+	if lastSegmentLen < tinkTagSize || (numSegments > 1 && lastSegmentLen == tinkTagSize) {
+		return nil, errors.New("ciphertext length does not match the segment layout")
+	}
 
 	return &seekableDecryptingReader{
 		r:             r,
